@@ -1034,11 +1034,14 @@ def _approximately_project_bounds(weights, units, output_min, output_max):
         tf.reduce_max(final_projection, axis=axis) - output_max, 0)
     min_violation = tf.maximum(
         output_min - tf.reduce_min(final_projection, axis=axis), 0)
-    final_projection += (min_violation - output_min)
-    final_projection *= ((output_max - output_min) /
-                         ((output_max + max_violation) -
-                          (output_min - min_violation)))
-    final_projection += output_min
+    # Affine map sending [output_min - min_violation, output_max + max_violation]
+    # onto [output_min, output_max]. It is applied as scale and offset of the
+    # weights rather than by translating them to 0 and back, so that weights
+    # without violations are returned exactly, whatever the size of the bounds.
+    scale = ((output_max - output_min) /
+             ((output_max + max_violation) - (output_min - min_violation)))
+    offset = output_min - (output_min - min_violation) * scale
+    final_projection = final_projection * scale + offset
   return final_projection
 
 
